@@ -82,13 +82,13 @@ meta('C16', 'other', 'symbolic execution of rustc MIR (mirsym) + z3 (String theo
 def mfam(name, oracles, depth, **kw):
     cfg = {'oracles': tuple(oracles), 'depth': depth}
     cfg.update(kw)
-    return {'name': name, 'kind': 'managed_bse', 'cfg': cfg, 'crates': ['deadpool']}
+    return {'name': name, 'kind': 'managed_bse', 'cfg': cfg, 'crates': ['deadpool', 'deadpool_runtime']}
 
 
 def ufam(name, oracles, depth, **kw):
     cfg = {'oracles': tuple(oracles), 'depth': depth}
     cfg.update(kw)
-    return {'name': name, 'kind': 'unmanaged_bse', 'cfg': cfg, 'crates': ['deadpool']}
+    return {'name': name, 'kind': 'unmanaged_bse', 'cfg': cfg, 'crates': ['deadpool', 'deadpool_runtime']}
 
 
 ALL_U = ('C05', 'C12')
@@ -319,7 +319,7 @@ def jobs_for(pid, tier, seed):
                       ctl=('resize',), resize_targets=(1,), max_ctl=1, thread_mode=True, fine=True, cancel=False, lifo=False, env={'create': ('ok',), 'recycle': ('ok',)}))
     if pid == 'C07':
         J.append({'name': 'two resize() calls on two threads are linearizable (fine interleaving vs both serial orders, 1 object out)', 'kind': 'resize_linear',
-                  'cfg': {'max_size': 2, 'first': 3, 'seconds': (0, 1), 'depth': 60 if q else 80}, 'crates': ['deadpool']})
+                  'cfg': {'max_size': 2, 'first': 3, 'seconds': (0, 1), 'depth': 60 if q else 80}, 'crates': ['deadpool', 'deadpool_runtime']})
         J.append(mfam('a waiter holds an assigned permit across a shrink and a grow (max_size 1)', ['C07'], 6 if q else 8, tasks=2, max_size_concrete=1, prefix=(('get', 'T1', 0), ('get', 'T2', 0)),
                       env={'create': ('ok',), 'recycle': ('ok',)}, ctl=('resize',), resize_targets=(0, 1), max_ctl=2, cancel=False, take=False, lifo=False))
         J.append(mfam('fine interleaving: return / take racing a shrink (2 objects out)', ['C07'], 30 if q else 40, tasks=2, max_size_concrete=2, prefix=(('get', 'T1', 0), ('get', 'T2', 0)), max_gets=1,
@@ -329,13 +329,13 @@ def jobs_for(pid, tier, seed):
         for hk, nm in (((), 'no hooks'), (H3, '3 hooks')):
             for lifo in (False, True):
                 J.append({'name': f'inductive step from an arbitrary state ({nm}, {"lifo" if lifo else "fifo"}): get / return / take / retain / status', 'kind': 'induct',
-                          'cfg': {'property': pid, 'hooks': hk, 'lifo': lifo, 'kmax': 3 if q else 4}, 'crates': ['deadpool']})
+                          'cfg': {'property': pid, 'hooks': hk, 'lifo': lifo, 'kmax': 3 if q else 4}, 'crates': ['deadpool', 'deadpool_runtime']})
     if pid in ALL_M:
         nv = 2 if q else 8
         for k in range(nv): J.append(vfam(25 if q else 60, k * 1000))
     if pid in ALL_U or pid == 'C10':
         for k in range(2 if q else 8): J.append({'name': f'translation validation, unmanaged ({40 if q else 100} traces, offset {k * 1000})', 'kind': 'validate_unmanaged',
-                                                 'cfg': {'traces': 40 if q else 100, 'offset': k * 1000}, 'crates': ['deadpool']})
+                                                 'cfg': {'traces': 40 if q else 100, 'offset': k * 1000}, 'crates': ['deadpool', 'deadpool_runtime']})
     for i, j in enumerate(J):
         j['seed'] = seed; j['tier'] = tier; j['pid'] = pid; j['budget'] = int(os.environ['VERIF_BUDGET_S']) if os.environ.get('VERIF_BUDGET_S') else (150 if q else 900)
     return J
@@ -549,7 +549,7 @@ def validate_unmanaged(prog, job):
 
 
 def vfam(n, offset=0):
-    return {'name': f'translation validation ({n} traces, offset {offset})', 'kind': 'validate_managed', 'cfg': {'traces': n, 'offset': offset}, 'crates': ['deadpool']}
+    return {'name': f'translation validation ({n} traces, offset {offset})', 'kind': 'validate_managed', 'cfg': {'traces': n, 'offset': offset}, 'crates': ['deadpool', 'deadpool_runtime']}
 
 
 def _jsonable(x):
